@@ -516,6 +516,39 @@ class Rec:
         return bool(cond)
 
 
+D17H_WITNESS = "01z01z180_02x02y180"
+ROUND_FLOOR = 1e-11      # 100 x Settings atol (1e-13): the band in which a refusal by the Gate constructor is round-off of expm (finding D17h)
+
+
+def to_gate_checked(lobj, rec, B):
+    """EffectiveLindbladian.to_gate() of a catalogued generator must return the gate: exp(L) is CPTP and (in the caller) equals the
+    gate of the same name.
+
+    to_gate() hands expm(L.hs) to the Gate constructor, which rejects Choi eigenvalues below the *absolute* atol 1e-13. For part of the
+    2-qutrit catalogue (81x81 generators, Choi spectrum of size 9) the round-off of expm puts a zero eigenvalue just below -1e-13
+    (01z01z180_02x02y180: -1.07e-13) and the constructor refuses a physical generator, deterministically: finding D17h, reported under
+    its own check id `to_gate-refused-at-rounding`. To tell that class from a genuinely non-physical exponential the exponential is
+    rebuilt with the constructor's verdict switched off and judged here: farther from CPTP than ROUND_FLOOR is `to_gate-not-physical`.
+    Every other exception propagates to Rec.call (`raises`)."""
+    try:
+        return lobj.to_gate()
+    except ValueError as e:
+        if "not physically correct" not in str(e):
+            raise
+    lo = type(lobj)(lobj.composite_system, lobj.hs, is_physicality_required=False)
+    tg = lo.to_gate()
+    ths = np.asarray(dense(tg.hs))
+    ch = choi_of_hs(B, ths)
+    w = np.einsum("aii->a", B)                                    # tr X = sum_a x_a tr(B_a): trace preservation is  w^T hs = w^T
+    me, fr = min_eig(ch), float(np.abs(w @ ths - w).max())
+    msg = f"to_gate() raises 'the gate is not physically correct': min Choi eigenvalue of expm(L) {me:.3e}, trace-preservation deviation {fr:.3e}"
+    if me > -ROUND_FLOOR and fr < ROUND_FLOOR and herm_dev(ch) < ROUND_FLOOR:
+        rec.fail("to_gate-refused-at-rounding", "effective_lindbladian", msg + " (round-off against the absolute atol 1e-13)")
+    else:
+        rec.fail("to_gate-not-physical", "effective_lindbladian", msg)
+    return tg
+
+
 def _listsame(rec, check, form, impl, ref, tol=TOL, what=""):
     if impl is None or ref is None:
         return False
@@ -1180,7 +1213,7 @@ def check_gate(system, name, ids, lind_obj=True, skip_lind=False):
         ph = l.call("effective_lindbladian", lobj.is_physical)
         if ph is not None:
             l.true("is_physical-false", "effective_lindbladian", ph == True, f"is_physical() = {ph}")  # noqa: E712
-        tg = l.call("effective_lindbladian", lobj.to_gate)
+        tg = l.call("effective_lindbladian", to_gate_checked, lobj, l, B)
         if tg is not None and hs_ok:
             l.same("to_gate-vs-gate", "effective_lindbladian", tg.hs, hs, TOL, "EffectiveLindbladian.to_gate().hs vs gate_mat")
     return g.fails, l.fails
@@ -2458,6 +2491,12 @@ def oracle(ctx, volume=1):
         chosen = single + double
         n_obj = min(len(chosen), 600)
     with_obj = set(ctx.rng.sample(chosen, n_obj))
+    # finding D17h (to_gate() of a physical catalogued generator refused at round-off, 96 of the 39 204 names): one witness is
+    # always in the object sample, so that the finding is exercised by every run and not only by the seeds whose sample meets it
+    if D17H_WITNESS not in chosen:
+        chosen = chosen + [D17H_WITNESS]
+    with_obj.add(D17H_WITNESS)
+    n_obj = len(with_obj)
     # thorough: EVERY 2-qutrit gate name is generated and checked; the effective-Lindbladian entry of the same name
     # (3 more dispatcher calls, each re-deriving the 39k-name list inside quara) is checked for all 198 single-base
     # names, the object sample and every second two-base name (deterministic), to keep the tier under 30 minutes
